@@ -133,8 +133,9 @@ class SelfV(V):
 
 
 class LoopSpec:
-    def __init__(self, inv: Callable, props=(), variant=None, name=""):
+    def __init__(self, inv: Callable, props=(), variant=None, name="", sig=None):
         self.inv, self.props, self.variant, self.name = inv, props, variant, name
+        self.sig = sig  # optional structural anchor: source text of the iterated expression / loop test
 
 
 MAX_DEPTH = 6
